@@ -50,7 +50,7 @@ PROPS = {
                     "Go's append growth policy (runtime.growslice): the capacity after a growing append is a parameter of the model operation, taken from the native run",
                     "the native Go reference of the harness (real []interface{} / map[interface{}]interface{} / string values) as the oracle the property names"],
         "assumptions": ["untyped containers in the Lean model; element values are scalars or container references; strings are ASCII",
-                        "WF hypotheses of write_then_read / append theorems (slice header inside its backing array) are stated locally, not yet as a global invariant"],
+                        "literal operands of a history are scalars (programs cannot spell references)"],
         "partial": ["typed containers (make / typed literals) and struct fields are decided by the typed part of the cont stream (store = Go conversion or error, content keeps "
                     "the declared type) and by the conversion theorems of C11, not by the heap model"],
     },
@@ -281,7 +281,9 @@ MANIFEST_TEXT = {
                 "source's storage (aliasing theorems), assignment copies the header only; read-after-write and frame (no other slot, no other "
                 "array changes); EVERY failing statement leaves variables, arrays and maps exactly unchanged (all operations, lifted to "
                 "histories); maps: store-then-read, other keys untouched, missing and unhashable keys read nil, unhashable key on write/delete "
-                "is an error; append: beyond capacity builds a fresh array (old arrays untouched), within capacity writes in place. "
+                "is an error; append: beyond capacity builds a fresh array (old arrays untouched), within capacity writes in place; GLOBAL "
+                "invariant: after any history every slice header anywhere points into an existing backing array with room for its capacity and "
+                "every map reference is valid (wf_step over all 9 operations, lifted to histories). "
                 "Correspondence + oracle: random histories over 5 variables run by the interpreter, by a native Go reference on real slices/maps/"
                 "strings and by the model (results, final contents, capacities, sharing).",
         "note": "Trusted: Lean kernel; model fidelity (differential); Go runtime growth policy (parameter). Typed containers / struct fields: stream oracle + C11 conversion theorems.",
